@@ -201,7 +201,11 @@ def rule_update_schedules(ck):
             ck.require(ok, "C04.R1", us, r.stmt, ok="rejected when more than one distinct row length exists",
                        bad="the unequal-length rejection must fire when the set of row lengths has more than one element", sink="reject-unequal-test")
     empties = []
+    from ..rules import emptiness
     for n in cfg.nodes:
+        if n.kind == "return" and emptiness(fl, n, sched) == "empty":
+            empties.append(n)
+            continue
         if n.kind == "return":
             for a, t in facts_at(fl, n):
                 c = cmp_norm(a, t)
